@@ -4,14 +4,20 @@ import (
 	"bytes"
 	"fmt"
 	"math"
+	"math/big"
+	"math/bits"
+	"strings"
 	"testing"
 
 	"verif/internal/h"
 
 	"github.com/tuneinsight/lattigo/v6/core/rlwe"
 	"github.com/tuneinsight/lattigo/v6/multiparty"
+	"github.com/tuneinsight/lattigo/v6/multiparty/mpbgv"
+	"github.com/tuneinsight/lattigo/v6/multiparty/mpckks"
 	"github.com/tuneinsight/lattigo/v6/ring"
 	"github.com/tuneinsight/lattigo/v6/ring/ringqp"
+	"github.com/tuneinsight/lattigo/v6/utils/bignum"
 	"github.com/tuneinsight/lattigo/v6/utils/sampling"
 	"pgregory.net/rapid"
 )
@@ -597,13 +603,14 @@ func TestPropExpand(t *testing.T) { propExpand.Check(t) }
 
 // CRPOp is one SampleCRP call of a protocol on the shared common reference string.
 type CRPOp struct {
-	Proto string    `json:"proto"` // "pk" | "relin" | "evk" | "galois" | "ks"
+	Proto string    `json:"proto"` // "pk" | "relin" | "evk" | "galois" | "ks" | "mpckks-mlt" | "mpckks-refresh" | "mpbgv-mt" | "mpbgv-refresh"
 	Evk   EvkParams `json:"evk"`
 	Level int       `json:"level"` // ks
 }
 
 type CRPCase struct {
 	Params h.RLWESpec `json:"params"`
+	T      uint64     `json:"t,omitempty"` // plaintext modulus for the mpbgv protocols
 	Key    uint64     `json:"key"`
 	Ops    []CRPOp    `json:"ops"`
 }
@@ -611,16 +618,23 @@ type CRPCase struct {
 func genCRP(t *rapid.T) CRPCase {
 	var c CRPCase
 	c.Params = h.GenRLWESpec(t, rlweOpts)
+	avoid := map[uint64]bool{}
+	for _, q := range append(append([]uint64(nil), c.Params.Q...), c.Params.P...) {
+		avoid[q] = true
+	}
+	c.T = h.GenPlainModulus(t, c.Params.LogN, rapid.IntRange(8, 20).Draw(t, "tBits"), avoid)
 	c.Key = rapid.Uint64().Draw(t, "key")
 	n := rapid.IntRange(1, 6).Draw(t, "nOps")
 	for i := 0; i < n; i++ {
-		op := CRPOp{Proto: []string{"pk", "relin", "evk", "galois", "ks"}[rapid.IntRange(0, 4).Draw(t, fmt.Sprintf("proto%d", i))]}
+		op := CRPOp{Proto: crpProtos[rapid.IntRange(0, len(crpProtos)-1).Draw(t, fmt.Sprintf("proto%d", i))]}
 		op.Evk = genEvkParams(t, c.Params, fmt.Sprintf("evk%d", i))
 		op.Level = rapid.IntRange(0, len(c.Params.Q)-1).Draw(t, fmt.Sprintf("lvl%d", i))
 		c.Ops = append(c.Ops, op)
 	}
 	return c
 }
+
+var crpProtos = []string{"pk", "relin", "evk", "galois", "ks", "mpckks-mlt", "mpckks-refresh", "mpbgv-mt", "mpbgv-refresh"}
 
 // flatten returns every limb of a CRP as a list.
 func flattenQP(ps ...ringqp.Poly) (out [][]uint64) {
@@ -638,6 +652,36 @@ type party struct {
 	evk   multiparty.EvaluationKeyGenProtocol
 	gal   multiparty.GaloisKeyGenProtocol
 	ks    multiparty.KeySwitchProtocol
+	// masked-transform / refresh protocols of the two schemes (nil when the scheme parameters cannot be built)
+	cMlt *mpckks.MaskedLinearTransformationProtocol
+	cRef *mpckks.RefreshProtocol
+	bMt  *mpbgv.MaskedTransformProtocol
+	bRef *mpbgv.RefreshProtocol
+}
+
+// newSchemeProtocols adds the mpckks / mpbgv protocols built on scheme parameters over the same ring.
+func (p *party) newSchemeProtocols(c CRPCase) {
+	noise := ring.DiscreteGaussian{Sigma: 3.2, Bound: 19.2}
+	lit := c.Params
+	lit.NTT = true
+	if cp, err := (h.CKKSSpec{RLWESpec: lit, LogScale: 20}).Build(); err == nil {
+		if m, err := mpckks.NewMaskedLinearTransformationProtocol(cp, cp, 64, noise); err == nil {
+			p.cMlt = &m
+		}
+		if r, err := mpckks.NewRefreshProtocol(cp, 64, noise); err == nil {
+			p.cRef = &r
+		}
+	}
+	if !c.Params.CI && c.T != 0 {
+		if bp, err := (h.BGVSpec{RLWESpec: lit, T: c.T}).Build(); err == nil {
+			if m, err := mpbgv.NewMaskedTransformProtocol(bp, bp, noise); err == nil {
+				p.bMt = &m
+			}
+			if r, err := mpbgv.NewRefreshProtocol(bp, noise); err == nil {
+				p.bRef = &r
+			}
+		}
+	}
 }
 
 func newParty(params rlwe.Parameters, key uint64) (*party, error) {
@@ -673,6 +717,26 @@ func (p *party) sample(op CRPOp) [][]uint64 {
 			out = append(out, flattenQP(row...)...)
 		}
 		return out
+	case "mpckks-mlt":
+		if p.cMlt == nil {
+			return nil
+		}
+		return p.cMlt.SampleCRP(op.Level, p.crs).Value.Coeffs
+	case "mpckks-refresh":
+		if p.cRef == nil {
+			return nil
+		}
+		return p.cRef.SampleCRP(op.Level, p.crs).Value.Coeffs
+	case "mpbgv-mt":
+		if p.bMt == nil {
+			return nil
+		}
+		return p.bMt.SampleCRP(op.Level, p.crs).Value.Coeffs
+	case "mpbgv-refresh":
+		if p.bRef == nil {
+			return nil
+		}
+		return p.bRef.SampleCRP(op.Level, p.crs).Value.Coeffs
 	default:
 		return p.ks.SampleCRP(op.Level, p.crs).Value.Coeffs
 	}
@@ -690,6 +754,9 @@ func runCRP(c CRPCase, rec *h.Rec) error {
 	}
 	B, _ := newParty(params, c.Key)
 	X, _ := newParty(params, c.Key^1)
+	for _, p := range []*party{A, B, X} {
+		p.newSchemeProtocols(c)
+	}
 	moduli := append(append([]uint64(nil), c.Params.Q...), c.Params.P...)
 	isMod := map[uint64]bool{}
 	for _, q := range moduli {
@@ -701,6 +768,16 @@ func runCRP(c CRPCase, rec *h.Rec) error {
 		protos[op.Proto] = true
 		rec.Class("proto=" + op.Proto)
 		a, b, x := A.sample(op), B.sample(op), X.sample(op)
+		if a == nil && b == nil && x == nil && strings.HasPrefix(op.Proto, "mp") {
+			rec.Class("skipped(scheme parameters not constructible)=" + op.Proto)
+			continue
+		}
+		// values of a common reference polynomial are reduced
+		for l := range a {
+			if len(a[l]) != params.N() {
+				return h.Failf("C17:crp:shape", "op %d (%s) limb %d has %d coefficients, N=%d", oi, op.Proto, l, len(a[l]), params.N())
+			}
+		}
 		if len(a) == 0 || len(a) != len(b) || len(a) != len(x) {
 			return h.Failf("C17:crp:shape", "op %d (%s): %d / %d / %d limbs", oi, op.Proto, len(a), len(b), len(x))
 		}
@@ -843,3 +920,123 @@ func runEncPRNG(c EncPRNGCase, rec *h.Rec) error {
 var propEncPRNG = h.NewProp("TestPropEncryptorWithPRNG", h.Budget{Quick: 150, Thorough: 3000}, genEncPRNG, runEncPRNG)
 
 func TestPropEncryptorWithPRNG(t *testing.T) { propEncPRNG.Check(t) }
+
+// ---------------------------------------------------------------------------------------------------------------------
+// helpers that take a reader: bignum.RandInt, ring.RandUniform
+// ---------------------------------------------------------------------------------------------------------------------
+
+type ReaderCase struct {
+	Key     uint64 `json:"key"`
+	Bits    int    `json:"bits"`    // size of the big bound
+	Shape   string `json:"shape"`   // "pow2" | "pow2-1" | "pow2+1" | "random"
+	MaxSeed uint64 `json:"maxSeed"` // random shape
+	V       uint64 `json:"v"`       // bound for ring.RandUniform
+	Count   int    `json:"count"`
+}
+
+func genReader(t *rapid.T) ReaderCase {
+	var c ReaderCase
+	c.Key = rapid.Uint64().Draw(t, "key")
+	switch rapid.IntRange(0, 3).Draw(t, "bitsK") {
+	case 0:
+		c.Bits = rapid.IntRange(1, 8).Draw(t, "bits")
+	case 1:
+		c.Bits = []int{63, 64, 65, 127, 128, 129}[rapid.IntRange(0, 5).Draw(t, "bits")]
+	default:
+		c.Bits = rapid.IntRange(1, 300).Draw(t, "bits")
+	}
+	c.Shape = []string{"pow2", "pow2-1", "pow2+1", "random"}[rapid.IntRange(0, 3).Draw(t, "shape")]
+	c.MaxSeed = rapid.Uint64().Draw(t, "maxSeed")
+	switch rapid.IntRange(0, 3).Draw(t, "vK") {
+	case 0:
+		c.V = uint64(rapid.IntRange(1, 9).Draw(t, "v"))
+	case 1:
+		c.V = uint64(1)<<rapid.IntRange(1, 62).Draw(t, "vExp") + uint64(rapid.IntRange(0, 2).Draw(t, "vOff")) - 1
+	default:
+		c.V = rapid.Uint64Range(1, 1<<62).Draw(t, "v")
+	}
+	c.Count = 2048
+	return c
+}
+
+func (c ReaderCase) max() *big.Int {
+	m := new(big.Int).Lsh(big.NewInt(1), uint(c.Bits))
+	switch c.Shape {
+	case "pow2-1":
+		m.Sub(m, big.NewInt(1))
+	case "pow2+1":
+		m.Add(m, big.NewInt(1))
+	case "random":
+		sm := h.NewSplitMix(c.MaxSeed)
+		r := new(big.Int)
+		for r.BitLen() < c.Bits {
+			r.Lsh(r, 64).Or(r, new(big.Int).SetUint64(sm.Uint64()))
+		}
+		r.Rsh(r, uint(r.BitLen()-c.Bits))
+		m = r
+	}
+	if m.Sign() <= 0 {
+		m.SetInt64(1)
+	}
+	return m
+}
+
+func runReader(c ReaderCase, rec *h.Rec) error {
+	max := c.max()
+	maxBefore := new(big.Int).Set(max)
+	p1, p2, p3 := keyedPRNG(c.Key), keyedPRNG(c.Key), keyedPRNG(c.Key^1)
+	fmax := new(big.Float).SetInt(max)
+	var sum float64
+	differ := 0
+	for i := 0; i < c.Count; i++ {
+		a, b, x := bignum.RandInt(p1, max), bignum.RandInt(p2, max), bignum.RandInt(p3, max)
+		if a.Cmp(b) != 0 {
+			return h.Failf("C17:RandInt:not-determined-by-reader", "draw %d below a %d-bit bound: two identically keyed readers gave %v and %v", i, max.BitLen(), a, b)
+		}
+		if a.Sign() < 0 || a.Cmp(max) >= 0 {
+			return h.Failf("C17:RandInt:outside-range", "draw %d: %v not in [0, %v)", i, a, max)
+		}
+		if a.Cmp(x) != 0 {
+			differ++
+		}
+		f, _ := new(big.Float).Quo(new(big.Float).SetInt(a), fmax).Float64()
+		sum += f
+	}
+	if max.Cmp(maxBefore) != 0 {
+		return h.Failf("C17:RandInt:bound-modified", "bignum.RandInt changed its bound argument")
+	}
+	n := float64(c.Count)
+	fm, _ := fmax.Float64()
+	want := 0.5 - 0.5/fm // mean of a uniform value in [0,max) divided by max
+	if math.Abs(sum-n*want) > bernstein(n, 1.0/12, 1) {
+		return h.Failf("C17:RandInt:mean", "mean of x/max over %d draws is %.4f, want %.4f +- %.4f (max has %d bits, shape %s)", c.Count, sum/n, want, bernstein(n, 1.0/12, 1)/n, max.BitLen(), c.Shape)
+	}
+	if max.BitLen() >= 40 && differ < c.Count-8 {
+		return h.Failf("C17:RandInt:distinct-keys-related", "readers with different keys agree on %d of %d draws below a %d-bit bound", c.Count-differ, c.Count, max.BitLen())
+	}
+
+	// ring.RandUniform(prng, v, mask): uniform in [0, v) by rejection under the mask 2^bitlen(v-1... )-1
+	mask := uint64(1)<<uint(bits.Len64(c.V)) - 1
+	var usum float64
+	for i := 0; i < c.Count; i++ {
+		a, b := ring.RandUniform(p1, c.V, mask), ring.RandUniform(p2, c.V, mask)
+		if a != b {
+			return h.Failf("C17:RandUniform:not-determined-by-reader", "draw %d below %d: two identically keyed readers (after identical histories) gave %d and %d", i, c.V, a, b)
+		}
+		if a >= c.V {
+			return h.Failf("C17:RandUniform:outside-range", "draw %d: %d >= %d", i, a, c.V)
+		}
+		usum += float64(a) / float64(c.V)
+	}
+	uwant := 0.5 - 0.5/float64(c.V)
+	if math.Abs(usum-n*uwant) > bernstein(n, 1.0/12, 1) {
+		return h.Failf("C17:RandUniform:mean", "mean of x/v over %d draws is %.4f, want %.4f +- %.4f (v=%d)", c.Count, usum/n, uwant, bernstein(n, 1.0/12, 1)/n, c.V)
+	}
+	rec.Class("shape=" + c.Shape)
+	rec.NonTrivial(fmt.Sprintf("bits=%d shape=%s vbits=%d", (c.Bits+31)/32, c.Shape, bits.Len64(c.V)/8))
+	return nil
+}
+
+var propReader = h.NewProp("TestPropReaderHelpers", h.Budget{Quick: 100, Thorough: 2000}, genReader, runReader)
+
+func TestPropReaderHelpers(t *testing.T) { propReader.Check(t) }
